@@ -81,12 +81,12 @@ fn nonempty(c: &Content) -> Content {
 }
 
 /// Segments of well-formed text: (paragraph index, field ordinal in paragraph, raw) or free text
-enum Seg {
+pub enum Seg {
     Field(usize, usize, String),
     Other(String),
 }
 
-fn segments(text: &str) -> Option<Vec<Seg>> {
+pub fn segments(text: &str) -> Option<Vec<Seg>> {
     let mut out: Vec<Seg> = vec![];
     let mut para = 0usize;
     let mut ord = 0usize;
@@ -128,7 +128,7 @@ fn segments(text: &str) -> Option<Vec<Seg>> {
 }
 
 /// text without the fields (para, ordinal) listed in `drop`
-fn remainder(segs: &[Seg], drop: &[(usize, usize)]) -> String {
+pub fn remainder(segs: &[Seg], drop: &[(usize, usize)]) -> String {
     let mut s = String::new();
     for g in segs {
         match g {
